@@ -244,8 +244,12 @@ fn on_point(p: &Point) {
                 }
                 // (In free-running mode a push that saw "full" may still succeed: it counts as
                 // "maybe refused".)
+                // ring pushes / drains only feed the cut signature: in free-running mode every thread
+                // works on its own traces, no trace can be cut, and the events are left out
                 if let Some(ev) = ev {
-                    emit(ev);
+                    if !s.free.load(Ordering::SeqCst) {
+                        emit(ev);
+                    }
                 }
             }
         }
@@ -267,7 +271,8 @@ fn on_point(p: &Point) {
         }
         Point::RecvEmpty { chan } => {
             // everything pushed before this moment has been consumed
-            if let Some(t) = thread_of_chan(*chan) {
+            if s.free.load(Ordering::SeqCst) {
+            } else if let Some(t) = thread_of_chan(*chan) {
                 emit(json!({"ev":"drain","t":t}));
             } else {
                 emit(json!({"ev":"drain","t":0,"chan":chan}));
